@@ -10,9 +10,9 @@
 #include "nanovm/vmd_protocol.h"
 
 enum { BK_HDR_ONLY = 0, BK_TRUNC, BK_GARBAGE, BK_BADVER, BK_UNKTYPE, BK_OVERSIZE, BK_ZEROLEN, BK_NONMODULE,
-       BK_BADCRC, BK_PINGJUNK, BK_STATUS, BK_SLOWREADER, BK_MIDOUTPUT, BK_HOSTILE, BK_NKINDS };
+       BK_BADCRC, BK_PINGJUNK, BK_STATUS, BK_SLOWREADER, BK_MIDOUTPUT, BK_TRAILING, BK_SLOWLORIS, BK_HOSTILE, BK_NKINDS };
 static const char *bk_name[] = { "hdr_only", "trunc_payload", "garbage", "bad_version", "unknown_type", "oversize_len",
-    "zero_len", "non_module", "bad_crc", "ping_junk", "status", "slow_reader", "disconnect_mid_output", "hostile_module" };
+    "zero_len", "non_module", "bad_crc", "ping_junk", "status", "slow_reader", "disconnect_mid_output", "exec_plus_trailing_bytes", "slowloris", "hostile_module" };
 
 typedef struct PClient { char prog[32]; int tok; uint64_t arrive; int kill_sys; int copkill; /* kill this session's co-process at its n-th system call */ } PClient;
 typedef struct PBad { int kind; int arg; uint64_t arrive; char prog[32]; int tok; } PBad;
@@ -218,6 +218,19 @@ static void *bad_peer(void *arg) {
         put_hdr(h, VMD_PROTO_VERSION, VMD_MSG_LOAD_EXEC, (uint32_t)m->n); send_all(fd, h, sizeof h); send_all(fd, m->d, m->n);
         drain_replies(fd, st, 1 + (size_t)b->arg * 3);  /* hang up while the program is still printing */
         break;
+    case BK_TRAILING: {   /* a complete, valid LOAD_EXEC followed by bytes nobody asked for, then a normal read of the reply */
+        put_hdr(h, VMD_PROTO_VERSION, VMD_MSG_LOAD_EXEC, (uint32_t)m->n); send_all(fd, h, sizeof h); send_all(fd, m->d, m->n);
+        uint8_t g[40]; for (int i = 0; i < 40; i++) g[i] = (uint8_t)(b->arg * 3 + i);
+        send_all(fd, g, 1 + (size_t)(b->arg % 40));
+        drain_replies(fd, st, 0);
+        break; }
+    case BK_SLOWLORIS: {  /* header and payload dribble in a few bytes at a time with pauses; halfway through the peer gives up */
+        put_hdr(h, VMD_PROTO_VERSION, VMD_MSG_LOAD_EXEC, (uint32_t)m->n);
+        for (size_t i = 0; i < sizeof h; i += 3) { send_all(fd, h + i, sizeof h - i < 3 ? sizeof h - i : 3); sim_sleep_us(200 + (uint64_t)(b->arg % 700)); }
+        size_t upto = (b->arg & 1) ? m->n : m->n / 2;
+        for (size_t i = 0; i < upto; i += 97) { send_all(fd, m->d + i, upto - i < 97 ? upto - i : 97); sim_sleep_us(100 + (uint64_t)(b->arg % 300)); }
+        if (b->arg & 1) drain_replies(fd, st, 0);
+        break; }
     case BK_HOSTILE: {
         Buf hb = {0}; char desc[128] = ""; char key[64];
         snprintf(key, sizeof key, "%s.%d.h%d", b->prog, b->tok, b->arg);
